@@ -4046,8 +4046,11 @@ class Phonopy:
             use_openmp=phonoc.use_openmp(),
         )
         # DynamialMatrix instance transforms force constants in correct
-        # type of numpy array.
-        self._force_constants = self._dynamical_matrix.force_constants
+        # type of numpy array. With frequency_scale_factor, the dynamical matrix
+        # holds scaled force constants, which must not replace the original ones
+        # (they would be scaled again at every rebuild).
+        if self._frequency_scale_factor is None:
+            self._force_constants = self._dynamical_matrix.force_constants
 
         if self._group_velocity is not None:
             self._set_group_velocity()
